@@ -44,7 +44,10 @@ type sched struct {
 	lockWaits int
 	hung      [maxTasks]bool // the task sits in a Write that never returns ("hang" fault)
 	nHung     int
-	nStuck    int // tasks left waiting behind a hung one when the episode ended
+	nStuck    int            // tasks left waiting behind a hung one when the episode ended
+	gone      [maxTasks]bool // R8: the library goroutine in this slot has ended
+	owner     [maxTasks]int  // R8: for a goroutine the library started itself, the caller task on whose behalf it runs
+	spawned   int
 	yields    int
 	maxYields int
 	switches  int
@@ -76,7 +79,7 @@ func (w *W) runTasks() {
 	if n > maxTasks-1 {
 		n = maxTasks - 1
 	}
-	s := &sched{w: w, n: n, spin: raceEnabled, done: make(chan struct{}), joined: make(chan int, n+1)}
+	s := &sched{w: w, n: n, spin: raceEnabled, done: make(chan struct{}), joined: make(chan int, 1<<16)}
 	s.stay = sc.Sched.StayPermille
 	if s.stay <= 0 {
 		s.stay = 800
@@ -116,7 +119,7 @@ func (w *W) runTasks() {
 			}
 		}
 	}
-	s.wake = make([]chan struct{}, n+1)
+	s.wake = make([]chan struct{}, maxTasks)
 	for i := range s.wake {
 		s.wake[i] = make(chan struct{}, 1)
 	}
@@ -146,7 +149,7 @@ func (w *W) runTasks() {
 	first := 1 + s.choose(n, false)
 	s.release(first)
 	<-s.done
-	for i := 0; i < n-s.hungCount()-s.nStuck; i++ {
+	for i := 0; i < n+s.spawned-s.hungCount()-s.nStuck; i++ {
 		<-s.joined
 	}
 	w.quiet = false
@@ -392,6 +395,7 @@ func (s *sched) blocked(key uintptr) bool {
 			// a channel, condition variable or wait group (rule R7): somebody outside the scheduler's view (a timer, a
 			// goroutine of the library's own) may still wake this task, so it blocks for real; if nobody does, the Go
 			// runtime reports the deadlock and the marker says that every task was accounted for
+			allWaitMark()
 			return false
 		}
 		// every live task waits for a lock: a deadlock of the library under this schedule
@@ -436,6 +440,60 @@ func softKey(key uintptr) bool { return key&1 == 1 }
 
 // selectKey is what a task in a polling select waits for: any channel operation wakes it.
 const selectKey = ^uintptr(0)
+
+// spawn makes a goroutine that the library starts itself (rule R8: a go statement in package slog) one more task:
+// it is parked like the others, runs when the tape picks it, and its events carry the identity of the caller task
+// on whose behalf it was started. It reports false when no scheduler decision can be made (no tasks are running,
+// the table is full): the goroutine then runs freely.
+//
+//go:norace
+func (s *sched) spawnedTask(t int) bool { return t > 0 && t < maxTasks && s.owner[t] != 0 }
+
+//go:norace
+func (s *sched) spawn(f func()) bool {
+	if s.n <= 0 || s.finished || s.cur <= 0 {
+		return false
+	}
+	// the slot of a library goroutine that has ended is used again
+	id := 0
+	for i := 1; i <= s.n; i++ {
+		if s.owner[i] != 0 && !s.alive[i] && s.gone[i] {
+			id = i
+			break
+		}
+	}
+	if id == 0 {
+		if s.n >= maxTasks-1 {
+			return false
+		}
+		s.n++
+		id = s.n
+	}
+	s.gone[id] = false
+	s.alive[id] = true
+	s.nAlive++
+	s.spawned++
+	root := s.cur
+	if s.owner[root] != 0 {
+		root = s.owner[root]
+	}
+	s.owner[id] = root
+	go func() {
+		s.park(id)
+		f()
+		s.leave(id)
+		s.joined <- id
+	}()
+	return true
+}
+
+// leave is exit for a library goroutine: its slot may be handed out again once the next task has been released.
+//
+//go:norace
+func (s *sched) leave(id int) {
+	s.gone[id] = true
+	s.exit(id)
+}
 
 // endWithHung ends the episode when nobody can run and at least one task sits in a Write that never returns.
 //
@@ -519,7 +577,9 @@ func (w *W) yield(site int) {
 	}
 	t := s.current()
 	inLog := false
-	if t >= 0 && t < maxTasks {
+	if s.spawnedTask(t) {
+		inLog = true // a goroutine of the library's own: it has no call depth of its own in the interpreter
+	} else if t >= 0 && t < maxTasks {
 		inLog = w.logDepth[t] > 0
 	}
 	s.yield(site, inLog)
@@ -529,21 +589,20 @@ func (w *W) yield(site int) {
 type lockHook struct{ w *W }
 
 func (h lockHook) Blocked(key uintptr) bool {
-	if s := h.w.sch; s != nil && s.blocked(key) {
-		return true
+	if s := h.w.sch; s != nil {
+		return s.blocked(key)
 	}
-	// the caller blocks for real: it is the only task (set-up, tail, a one-task episode) or every other live task
-	// waits. Either way every task is accounted for, and if nothing outside the scheduler's view wakes it, the
-	// deadlock the Go runtime reports next is the library's own
-	allWaitMark()
-	return false
+	return false // no caller tasks are running (set-up, tail): the caller blocks for real
 }
 
 var allWaitSaid atomic.Bool
 
+// allWaitMark notes on stderr that the last runnable task is about to block for real while every other live task
+// waits: every task is accounted for, and if nothing outside the scheduler's view wakes this one, the deadlock the
+// Go runtime reports next is the library's own. (Written only where the schedule alone decides that it is written.)
 func allWaitMark() {
 	if allWaitSaid.CompareAndSwap(false, true) {
-		os.Stderr.WriteString("verif: ALL-TASKS-WAIT: a task blocks on a lock, channel, condition variable or wait group while no other task can run\n")
+		os.Stderr.WriteString("verif: ALL-TASKS-WAIT: a task blocks on a channel, condition variable or wait group while every other live task waits\n")
 	}
 }
 
